@@ -298,7 +298,7 @@ run_oracle_only = run
 
 
 def search(ctx, hints):
-    return common.generic_search(ctx, hints, oracle, gen=lambda r: gr.gen_text(r)[0])
+    return common.generic_search(ctx, hints, common.new_only('C10', oracle, classify), gen=lambda r: gr.gen_text(r)[0])
 
 
 def shrink(fl):
